@@ -70,6 +70,92 @@ def norm(node: ast.AST) -> str:
         return type(node).__name__
 
 
+def local_names(fn: ast.AST) -> set[str]:
+    """names bound inside a function (its whole subtree): assignment targets, loop/with/except/match variables and
+    parameters other than self/cls"""
+    out: set[str] = set()
+    for n in ast.walk(fn):
+        if isinstance(n, ast.Name) and isinstance(n.ctx, (ast.Store, ast.Del)):
+            out.add(n.id)
+        elif isinstance(n, (ast.FunctionDef, ast.AsyncFunctionDef, ast.Lambda)):
+            a = n.args
+            for x in a.posonlyargs + a.args + a.kwonlyargs:
+                if x.arg not in ("self", "cls"):
+                    out.add(x.arg)
+            if isinstance(n, (ast.FunctionDef, ast.AsyncFunctionDef)) and n is not fn:
+                out.add(n.name)
+        elif isinstance(n, ast.ExceptHandler) and n.name:
+            out.add(n.name)
+        elif isinstance(n, (ast.MatchAs, ast.MatchStar)) and n.name:
+            out.add(n.name)
+    for n in ast.walk(fn):
+        if isinstance(n, ast.Global):
+            out -= set(n.names)
+    return out
+
+
+_LOCALS_CACHE: dict = {}
+
+
+def alpha(node: ast.AST, fn: ast.AST | None, anonymous: bool = False) -> str:
+    """Normalised text of `node` in which the local names of the enclosing function `fn` are replaced by $1, $2, ...
+    in order of first appearance inside `node` (or all by `$` when anonymous): independent of how locals are called."""
+    if fn is None:
+        return norm(node)
+    locs = _LOCALS_CACHE.get(id(fn))
+    if locs is None or locs[0] is not fn:
+        locs = (fn, local_names(fn))
+        _LOCALS_CACHE[id(fn)] = locs
+    locs = locs[1]
+    import copy
+    t = copy.deepcopy(node)
+    order: dict[str, str] = {}
+
+    def name_for(x):
+        if anonymous:
+            return "$"
+        if x not in order:
+            order[x] = f"${len(order) + 1}"
+        return order[x]
+
+    class R(ast.NodeTransformer):
+        def visit_Name(self, n):
+            if n.id in locs:
+                n.id = name_for(n.id)
+            return n
+
+        def visit_arg(self, n):
+            if n.arg in locs:
+                n.arg = name_for(n.arg)
+            return n
+
+        def visit_FunctionDef(self, n):
+            if n.name in locs:
+                n.name = name_for(n.name)
+            self.generic_visit(n)
+            return n
+
+        def visit_Nonlocal(self, n):
+            n.names = [name_for(x) if x in locs else x for x in n.names]
+            return n
+
+        def visit_ExceptHandler(self, n):
+            if n.name and n.name in locs:
+                n.name = name_for(n.name)
+            self.generic_visit(n)
+            return n
+
+        def visit_keyword(self, n):
+            self.generic_visit(n)
+            return n
+
+    t = R().visit(t)
+    try:
+        return " ".join(ast.unparse(t).split())
+    except Exception:  # pragma: no cover
+        return norm(node)
+
+
 class Program:
     def __init__(self, root: pathlib.Path | None = None, overlay: dict | None = None):
         """overlay: {relative path: source text} replaces file contents in memory (self-test variants)."""
